@@ -209,6 +209,8 @@ func topologies(thorough bool) []string {
 	for _, op := range []string{"{a}", "{o{...A}}", "{o{...A ...B}}", "{o{o{...B}}}", "query Q{o{...A}} query R{o{...B}}", "{...A}",
 		// the same spreads below same-key fields of two object types (compared as mutually exclusive)
 		"{i{... on O{o{...A}} ... on P{o{...A}}}}", "{i{... on O{o{...A}} ... on P{o{...B}}}}",
+		// type conditions that name nothing, a scalar, an input object
+		"{... on Nope{a} o{... on Nope{x} ...A}}", "{o{... on String{x} ... on In{a} ...B}}",
 		// spreads behind a variable-driven directive
 		"query($v:Boolean!){o{...A @include(if:$v) ...A @skip(if:$v) ...B @include(if:$v)}}"} {
 		for _, a := range bodies {
